@@ -51,6 +51,25 @@ pub trait CompVal: ReactComponent + PartialEq + Copy
 impl CompVal for CA { fn new(v: u8) -> Self { CA(v) } fn val(&self) -> u8 { self.0 } fn set(&mut self, v: u8) { self.0 = v; } }
 impl CompVal for CB { fn new(v: u8) -> Self { CB(v) } fn val(&self) -> u8 { self.0 } fn set(&mut self, v: u8) { self.0 = v; } }
 
+/// Lives in a `Local` of every actor: counts the runs and records, when it is constructed, which construction of
+/// system state (in the whole execution) it belongs to. Constructing it is announced in the trace.
+pub struct StateProbe
+{
+    pub ctr: u32,
+    pub ordinal: u32,
+}
+
+impl FromWorld for StateProbe
+{
+    fn from_world(_: &mut World) -> Self
+    {
+        let mut ordinal = 0;
+        try_with_ctx(|x| { x.state_builds += 1; ordinal = x.state_builds; });
+        push(TEv::Value{ what: "state-built".into(), value: ordinal as i64 });
+        StateProbe{ ctr: 0, ordinal }
+    }
+}
+
 //-------------------------------------------------------------------------------------------------------------------
 // Reader params
 
@@ -819,7 +838,7 @@ fn conv_mode(m: Mode) -> ReactorMode
 
 /// Common body: record entry, obtain the script for this run, issue it, queue the end marker.
 fn actor_run(id: ActorId, c: &mut Commands, readers: Readers, local_ctr: u32, closure_ctr: u32, variant: Variant,
-    mut rm: Option<&mut ReactiveMut<CA>>)
+    mut rm: Option<&mut ReactiveMut<CA>>, state_ordinal: u32)
 {
     // run id
     let (rid, over_cap) = with_ctx(|x| {
@@ -831,6 +850,7 @@ fn actor_run(id: ActorId, c: &mut Commands, readers: Readers, local_ctr: u32, cl
         (rid, x.total_runs > x.cfg.max_runs)
     });
     push(TEv::RunEnter{ id: rid, local_ctr, closure_ctr, variant, readers });
+    push(TEv::Value{ what: format!("state-ordinal:{id}"), value: state_ordinal as i64 });
 
     // script fixed by the configuration (probe actors)
     let fixed: Option<Vec<Op>> = with_ctx(|x| {
@@ -885,37 +905,37 @@ fn actor_run(id: ActorId, c: &mut Commands, readers: Readers, local_ctr: u32, cl
 
 /// All ordinary actors are instances of this one closure type.
 pub fn plain_actor(id: ActorId, erring: bool, take: bool, sigs: Vec<AutoDespawnSignal>)
-    -> impl FnMut(Commands, AllReaders, Local<u32>, ReactiveMut<CA>) -> DropErr + Send + Sync + 'static
+    -> impl FnMut(Commands, AllReaders, Local<StateProbe>, ReactiveMut<CA>) -> DropErr + Send + Sync + 'static
 {
     // the canary is declared first so that it is dropped before the captured signals
     let canary = Canary(id);
     let mut closure_ctr = 0u32;
-    move |mut c: Commands, mut r: AllReaders, mut local: Local<u32>, mut rm: ReactiveMut<CA>| -> DropErr
+    move |mut c: Commands, mut r: AllReaders, mut local: Local<StateProbe>, mut rm: ReactiveMut<CA>| -> DropErr
     {
         let _keep = (&canary, &sigs);
         let (readers, held) = sample_readers(&mut r, take);
         let variant = if erring { Variant::Erring } else if take { Variant::Plain } else { Variant::NoTake };
-        actor_run(id, &mut c, readers, *local, closure_ctr, variant, Some(&mut rm));
+        actor_run(id, &mut c, readers, local.ctr, closure_ctr, variant, Some(&mut rm), local.ordinal);
         drop(held);
-        *local += 1;
+        local.ctr += 1;
         closure_ctr += 1;
         if erring { return Err(IgnoredError); }
         DONE
     }
 }
 
-pub fn erring_actor(id: ActorId, sigs: Vec<AutoDespawnSignal>) -> impl FnMut(Commands, AllReaders, Local<u32>, ReactiveMut<CA>) -> DropErr + Send + Sync + 'static
+pub fn erring_actor(id: ActorId, sigs: Vec<AutoDespawnSignal>) -> impl FnMut(Commands, AllReaders, Local<StateProbe>, ReactiveMut<CA>) -> DropErr + Send + Sync + 'static
 {
     plain_actor(id, true, true, sigs)
 }
 
 /// Exclusive actors: readers through a cached `SystemState`, commands through `world.commands()`.
 pub fn exclusive_actor(id: ActorId, sigs: Vec<AutoDespawnSignal>, flush_first: bool)
-    -> impl FnMut(&mut World, &mut SystemState<AllReaders<'static, 'static>>, Local<u32>) + Send + Sync + 'static
+    -> impl FnMut(&mut World, &mut SystemState<AllReaders<'static, 'static>>, Local<StateProbe>) + Send + Sync + 'static
 {
     let canary = Canary(id);
     let mut closure_ctr = 0u32;
-    move |world: &mut World, st: &mut SystemState<AllReaders<'static, 'static>>, mut local: Local<u32>|
+    move |world: &mut World, st: &mut SystemState<AllReaders<'static, 'static>>, mut local: Local<StateProbe>|
     {
         let _keep = (&canary, &sigs);
         if flush_first { world.flush(); }
@@ -924,9 +944,9 @@ pub fn exclusive_actor(id: ActorId, sigs: Vec<AutoDespawnSignal>, flush_first: b
             sample_readers(&mut r, true)
         };
         let mut c = world.commands();
-        actor_run(id, &mut c, readers, *local, closure_ctr, if flush_first { Variant::ExclusiveFlush } else { Variant::Exclusive }, None);
+        actor_run(id, &mut c, readers, local.ctr, closure_ctr, if flush_first { Variant::ExclusiveFlush } else { Variant::Exclusive }, None, local.ordinal);
         drop(held);
-        *local += 1;
+        local.ctr += 1;
         closure_ctr += 1;
     }
 }
